@@ -34,6 +34,7 @@ type Object struct {
 	Buf    []Value
 	Cap    int
 	Closed *term.Term
+	TimerAt *term.Term // timer channel: receiving moves the clock to at least this instant
 	// OIter
 	IterMap ObjID
 	IterIdx int
